@@ -36,6 +36,10 @@ struct FnDir {
     generics: Option<String>,
     wher: Option<String>,
     mutself: bool,
+    /// `@@attr text`: verifier attribute lines put in front of the extracted function
+    fn_attrs: Vec<String>,
+    /// `@@refmutself`: a by-value receiver `self` of an impl for `&mut T` becomes `&mut self` (E9)
+    refmutself: bool,
     boolops: bool,
     nocanary: bool,
     nopub: bool,
@@ -248,6 +252,8 @@ fn parse_template(path: &Path, nodes: &mut Vec<Node>) {
                         "generics" => d.generics = Some(rest),
                         "where" => d.wher = Some(rest),
                         "mutself" => d.mutself = true,
+                        "attr" => d.fn_attrs.push(rest.clone()),
+                        "refmutself" => d.refmutself = true,
                         "boolops" => d.boolops = true,
                         "nocanary" => d.nocanary = true,
                         "nopub" => d.nopub = true,
@@ -1843,6 +1849,15 @@ fn main() {
                             ed.push(p, p, format!("<{g}>"), "E9-method-generics", false);
                         }
                     }
+                    if d.refmutself {
+                        match sig.inputs.first() {
+                            Some(syn::FnArg::Receiver(rc)) if rc.reference.is_none() && rc.mutability.is_none() => {
+                                let r = rc.self_token.span().byte_range();
+                                ed.push(r.start, r.start, "&mut ", "E9-receiver-of-impl-for-mut-ref", false);
+                            }
+                            _ => die(&format!("{ctx}: @@refmutself but receiver is not a plain `self`")),
+                        }
+                    }
                     if d.mutself {
                         match sig.inputs.first() {
                             Some(syn::FnArg::Receiver(rc)) if rc.reference.is_some() && rc.mutability.is_none() => {
@@ -1929,6 +1944,10 @@ fn main() {
                         let mut s = String::new();
                         if stub_this {
                             s.push_str("// vx:STUBBED — contract kept as ASSUMED, body UNVERIFIED\n#[verifier::external_body]\n");
+                        }
+                        for a in &d.fn_attrs {
+                            s.push_str(a);
+                            s.push('\n');
                         }
                         s.push_str(vis);
                         s.push_str(sig_text);
